@@ -68,3 +68,63 @@ pub fn evaluate_all(progs: Vec<Prog>, config: refsem::Config, tag: &str) -> Resu
   }
   Ok(partial.into_iter().map(|(e, _)| e).collect())
 }
+
+/// A second, fixed entry module for the layout runs.
+pub const SECOND_MODULE: &str = "class Helper(val n: int) {\n  method twice(): int = this.n * 2\n}\nclass Main {\n  function sum(i: int, acc: int): int = if i > 10 { acc } else { Main.sum(i + 1, acc + i) }\n  function main(): unit = {\n    Process.println(\"second: \" :: Str.fromInt(Main.sum(0, 0)));\n    Process.println(\"second done \" :: Str.fromInt(Helper.init(21).twice()))\n  }\n}\n";
+pub const SECOND_LINES: [&str; 2] = ["second: 55", "second done 42"];
+
+/// One program in another project layout: the module lives at a path of three segments and is
+/// compiled together with a second entry module, entries in the given order.
+pub struct LayoutEval {
+  pub prog_index: usize,
+  pub main_first: bool,
+  pub compile: Result<(), CompileFail>,
+  /// (wasm, ts) of the program's own entry and of the second entry
+  pub main: Option<(RunResult, RunResult)>,
+  pub second: Option<(RunResult, RunResult)>,
+}
+
+pub fn evaluate_layouts(progs: &[&Prog], tag: &str) -> Result<Vec<LayoutEval>, String> {
+  let main_name = "app.deep.Main".to_string();
+  let second_name = "other.Second".to_string();
+  let configs: Vec<(usize, bool)> = (0..progs.len()).flat_map(|i| [(i, true), (i, false)]).collect();
+  let compiled: Vec<Result<Vec<exec::Emitted>, CompileFail>> = configs
+    .par_iter()
+    .map(|(i, main_first)| {
+      let sources = vec![(main_name.clone(), progs[*i].text.clone()), (second_name.clone(), SECOND_MODULE.to_string())];
+      let entries = if *main_first { vec![main_name.clone(), second_name.clone()] } else { vec![second_name.clone(), main_name.clone()] };
+      exec::compile_program_entries(&sources, &entries)
+    })
+    .collect();
+  let mut jobs = vec![];
+  let mut owner = vec![];
+  for (k, c) in compiled.iter().enumerate() {
+    if let Ok(ems) = c {
+      for e in ems {
+        jobs.push(Job::Wasm { wasm: e.wasm.clone(), loader_js: e.loader_js.clone(), entry: e.wasm_entry.clone() });
+        jobs.push(Job::Ts { text: e.ts.clone() });
+      }
+      owner.push(k);
+    }
+  }
+  let results = exec::run_parallel(tag, &jobs, Duration::from_secs(30), 16)?;
+  let mut out: Vec<LayoutEval> = configs
+    .iter()
+    .zip(compiled.iter())
+    .map(|((i, main_first), c)| LayoutEval { prog_index: *i, main_first: *main_first, compile: c.as_ref().map(|_| ()).map_err(|e| e.clone()), main: None, second: None })
+    .collect();
+  for (j, k) in owner.into_iter().enumerate() {
+    let r = &results[4 * j..4 * j + 4];
+    let first = (r[0].clone(), r[1].clone());
+    let second = (r[2].clone(), r[3].clone());
+    let le = &mut out[k];
+    if le.main_first {
+      le.main = Some(first);
+      le.second = Some(second);
+    } else {
+      le.main = Some(second);
+      le.second = Some(first);
+    }
+  }
+  Ok(out)
+}
